@@ -454,6 +454,26 @@ def _tpl_gau_approx(m, k):
     return any((k * L / 2.0) ** 2 <= 0.1 for L in lens)
 
 
+NOTES = []
+
+
+def _safe_cor(m, ell):
+    """`m.correlation`, with non-finite values at r < 1e-6*len replaced by correlation(0) = 1.  (Integral with large
+    non-integer nu/2 returns NaN for 1e-10 < r/len < 4e-8 — a defect of `correlation`, i.e. of property C03; it is
+    noted in the search summary, not counted against C04.)"""
+    def cor(r):
+        c = np.asarray(m.correlation(r), dtype=float)
+        bad = ~np.isfinite(c) & (np.asarray(r) < 1e-6 * ell)
+        if bad.any():
+            note = f"{m.name}.correlation non-finite for 0 < r < 1e-6*len (nu={getattr(m, 'nu', None)})"
+            if note not in NOTES:
+                NOTES.append(note)
+            c = c.copy()
+            c[bad] = 1.0
+        return c
+    return cor
+
+
 def fourier_pair_search(ctx, n_random, ks_rel, viol):
     """A: density vs radial Fourier quadrature of `correlation`"""
     rng = np.random.RandomState(ctx.seed + 40)
@@ -496,10 +516,11 @@ def fourier_pair_search(ctx, n_random, ks_rel, viol):
                         continue
                     ks = np.asarray(ks_rel) / ell
                     code = np.asarray(m.spectral_density(ks), dtype=float)
-                    ref = np.array([radial_ft(m.correlation, d, k, ell, sup) for k in ks])
+                    cor = _safe_cor(m, ell)
+                    ref = np.array([radial_ft(cor, d, k, ell, sup) for k in ks])
                     # peak of the true density: value at the origin where the correlation is integrable
                     slow = cls in ("TPLGaussian", "TPLExponential", "TPLStable") or (cls == "Rational")
-                    peak = np.max(np.abs(ref)) if slow else max(np.max(np.abs(ref)), abs(density_at_zero(m.correlation, d, ell, sup)))
+                    peak = np.max(np.abs(ref)) if slow else max(np.max(np.abs(ref)), abs(density_at_zero(cor, d, ell, sup)))
                 ev += len(ks)
                 for k, c, q in zip(ks, code, ref):
                     err = abs(c - q)
@@ -741,7 +762,13 @@ def _pdf_mass(m, cls, d, ell):
         dec = 3.5 / m.nu if cls == "Matern" else 7.0 / m.nu   # tails k^(-2nu-1), k^(-nu-1)
         hi = 10.0 ** min(250.0, 3.0 + dec) / ell
     elif cls == "HyperSpherical":
-        hi, tol, per = 1e6 / ell, 1e-4, 40            # k^-2 tail: mass beyond K ~ c/K
+        # pdf = A/k^2 * (1 + oscillation) for k*len >> 1 (J_nu(x)^2 ~ (1 + sin(2x - nu*pi))/(pi*x)): uniform panels up to
+        # K = 2000/len, then the tail A/K of the mean (the oscillating part contributes O(1/K^2))
+        K = 2000.0 / ell
+        head = _panels(pdf, np.concatenate([[0.0], ell ** -1 * 0.25 * 0.5 ** np.arange(30, -1, -1),
+                                            np.linspace(0.25 / ell, K, 4000)[1:]])).sum()
+        A = area * sps.gamma(d / 2 + 1) / np.pi ** (d / 2) * 2.0 / (np.pi * ell)
+        return head + A / K, 1e-5, "analytic"
     elif cls == "Gaussian":
         hi = 1e3 / ell
     else:
@@ -789,6 +816,7 @@ def mechanism_search(ctx, viol):
 
 def search(ctx, deep=False):
     viol = []
+    del NOTES[:]
     n_random = ctx.scale(2, 10) * (2 if deep else 1)
     ks_rel = ctx.scale([0.05, 0.4, 1.3, 3.5, 8.0], [0.05, 0.1, 0.25, 0.5, 0.9, 1.3, 2.0, 3.5, 5.5, 8.0])
     ev_a, worst = fourier_pair_search(ctx, n_random, ks_rel, viol)
@@ -816,7 +844,8 @@ def search(ctx, deep=False):
                        "rad_pdf = sphere area*|density| with r~0 rule; cdf' = pdf by central differences (1e-6), cdf(0)=0, "
                        "cdf(inf)=1, cdf(R) = int_0^R pdf, ppf(cdf r) = r, cdf(ppf u) = u; density >= 0; spectrum = var*density; "
                        f"hankel settings honoured. worst analytic rel. error {worst['analytic']:.2e}, worst default error/peak "
-                       f"{worst['default']:.2e}, worst |mass-1| {worst_int['analytic']:.2e}"}
+                       f"{worst['default']:.2e}, worst |mass-1| {worst_int['analytic']:.2e}"
+                       + ("; NOTES (other properties): " + "; ".join(NOTES) if NOTES else "")}
 
 
 def replay(ctx, payload):
